@@ -30,6 +30,9 @@ SA == <<97>>                      \* "a"
 SB == <<98>>
 SE == <<195, 169>>                \* U+00E9, two bytes
 SF == <<97, 47, 35>>              \* "a/#"
+SR == <<239, 191, 189>>           \* U+FFFD REPLACEMENT CHARACTER, correctly encoded (three bytes)
+S3 == <<226, 130, 172>>           \* U+20AC, three bytes
+S4 == <<240, 159, 152, 128>>      \* U+1F600, four bytes
 SLong == Run(65535, 97)           \* the maximum-length string
 BLong == Run(65535, 0)            \* maximum-length binary data
 PayLong == Run(70000, 120)        \* payload longer than any length-prefixed field
@@ -71,7 +74,7 @@ SinglePool(ctx) ==
     [] ctx = CONNACK     -> Nums(17, <<0>> \o U32s) \o <<PS(18, SE)>> \o Nums(19, <<0>> \o U16s) \o <<PS(21, SA), PS(22, <<0>>), PS(26, SA), PS(28, SA), PS(31, SE)>>
                             \o Nums(33, U16s) \o Nums(34, <<0>> \o U16s) \o Nums(36, <<0, 1>>) \o Nums(37, <<0, 1>>)
                             \o Nums(39, U32s) \o Nums(40, <<0, 1>>) \o Nums(41, <<0, 1>>) \o Nums(42, <<0, 1>>)
-    [] ctx = PUBLISH     -> Nums(1, <<0, 1>>) \o Nums(2, U32s) \o <<PS(3, SE), PS(8, SA), PS(8, SE), PS(9, <<0>>), PS(9, <<0, 255>>)>>
+    [] ctx = PUBLISH     -> Nums(1, <<0, 1>>) \o Nums(2, U32s) \o <<PS(3, SE), PS(3, SR), PS(3, S4), PS(8, SA), PS(8, SE), PS(8, S3), PS(9, <<0>>), PS(9, <<0, 255>>)>>
                             \o Nums(35, U16s) \o <<PU(<<>>, <<>>)>>
     [] ctx \in AckTypes  -> <<PS(31, SE)>>
     [] ctx = SUBSCRIBE   -> Nums(11, SubIds)
